@@ -592,6 +592,126 @@ def long_cases():
     return out
 
 
+# ---- long TEXT documents for the tree/library codecs (chunked reading: 16 KiB and up)
+
+_TEXTPOOL = {}
+TEXT_POOL_SEED = 20260930
+
+
+def text_pool(codec):
+    """deterministic pool of ordinary items of varying size for `codec` (mrx/json)"""
+    if codec not in _TEXTPOOL:
+        import random
+        rng = random.Random(TEXT_POOL_SEED + len(codec))
+        _TEXTPOOL[codec] = [gen_mrs(rng, codec, size=rng.choice([1, 2, 2, 3, 4, 6])) for _ in range(260)]
+    return _TEXTPOOL[codec]
+
+
+def text_lead(codec, shift):
+    """a leading item whose text is `shift` characters longer than that of shift 0"""
+    return {"top": cps("h0"), "index": cps("e2"),
+            "rels": [{"pred": cps("_rain_v_1"), "label": cps("h1"), "args": [[cps("ARG0"), cps("e2")]],
+                      "lnk": {"c": [0, 4]}, "surface": cps("x" * shift), "base": None}],
+            "hcons": [], "icons": [], "vars": [], "lnk": None, "surface": None, "ident": None}
+
+
+def longtext_items(case):
+    return [text_lead(case["codec"], case["shift"])] + text_pool(case["codec"])[:case["n"]]
+
+
+_LONGTEXT = {}
+
+
+def longtext_cases(tier):
+    """deterministic: MRX and MRS-JSON documents of > 16 KiB, > 64 KiB and > 128 KiB; a family of leading items
+    shifts every later item boundary by 1..40 characters; for MRX additionally documents in which the `<mrs` of some
+    item starts exactly d characters (d = -1, 0, 1) after 8192, 16384, 32768 and 65536."""
+    if tier in _LONGTEXT:
+        return _LONGTEXT[tier]
+    out = []
+    for codec in ("mrx", "json"):
+        mod = mrx if codec == "mrx" else mrsjson
+        pool = text_pool(codec)
+        lens = [len(mod.encode(m_from_wire(j))) for j in pool]
+
+        def n_for(target):
+            tot, n = 0, 0
+            while n < len(pool) and tot <= target + 2000:
+                tot += lens[n]
+                n += 1
+            return n
+        shifts16 = [1, 2, 3, 4, 5, 7, 10, 13, 17, 23, 31, 40] if codec == "mrx" else [1, 2, 7, 40]
+        fam = [(16384, sh) for sh in shifts16] + [(65536, sh) for sh in ((1, 9, 24, 40) if codec == "mrx" else (3,))]
+        fam += [(131072, sh) for sh in ((2, 33) if (codec == "mrx" and tier != "quick") or codec == "mrx" else (5,))]
+        for target, sh in fam:
+            out.append({"kind": "longtext", "codec": codec, "n": n_for(target), "shift": sh, "target": target,
+                        "pool_seed": TEXT_POOL_SEED, "props": True, "lnk": True, "exact": None})
+        if codec == "mrx":
+            # exact hits: start of some item at boundary + d in the un-indented dumps text
+            base = mrx.dumps([m_from_wire(j) for j in [text_lead(codec, 0)] + pool[:n_for(65536)]])
+            starts = [i for i in range(len(base)) if base.startswith("<mrs ", i) or base.startswith("<mrs>", i)]
+            for boundary in (8192, 16384, 32768, 65536):
+                for d in (-1, 0, 1):
+                    cands = [p_ for p_ in starts[1:] if p_ <= boundary + d]
+                    if not cands:
+                        continue
+                    sh = boundary + d - cands[-1]
+                    out.append({"kind": "longtext", "codec": codec, "n": n_for(max(boundary, 16384)), "shift": sh,
+                                "target": boundary, "pool_seed": TEXT_POOL_SEED, "props": True, "lnk": True,
+                                "exact": d})
+    _LONGTEXT[tier] = out
+    return out
+
+
+# ---- object churn: SEM-Is and structures built, used, dropped and rebuilt in a row
+
+CHURN_PAIRS = [("ARG1", "ARG2"), ("ARG1", "ARG3"), ("ARG2", "ARG3"), ("ARG3", "ARG1"), ("ARG2", "ARG1"), ("ARG3", "ARG2")]
+
+
+def gen_churn(rng, codec, n=12):
+    """n different small structures (for Indexed MRS with n SEM-Is that disagree on the role names of the same
+    predicates and arities: the k-th structure is covered by the k-th SEM-I only)"""
+    items, semis = [], []
+    off = rng.randrange(len(CHURN_PAIRS))
+    for k in range(n):
+        if codec == "indexed":
+            a, b = CHURN_PAIRS[(k + off) % len(CHURN_PAIRS)]
+            preds = gen_ix_preds(rng)
+            preds["_chase_v_1"] = [[["ARG0", "e", False], [a, "x", False], [b, "x", False]]]
+            preds["_bark_v_1"] = [[["ARG0", "e", False], [b, "x", False]]]
+            for _try in range(60):
+                mj = gen_ix_mrs(rng, preds)
+                if ix_unambiguous(mj, preds):
+                    break
+            else:
+                mj = {"top": cps("h0"), "index": cps("e2"), "rels": [], "hcons": [], "icons": [], "vars": [],
+                      "lnk": None, "surface": None, "ident": None}
+            mj["rels"] = [{"pred": cps("_chase_v_1"), "label": cps("h90"),
+                           "args": [[cps("ARG0"), cps("e91")], [cps(a), cps("x92")], [cps(b), cps("x93")]],
+                           "lnk": None, "surface": None, "base": None},
+                          {"pred": cps("_bark_v_1"), "label": cps("h90"),
+                           "args": [[cps("ARG0"), cps("e94")], [cps(b), cps("x93")]],
+                           "lnk": None, "surface": None, "base": None}] + mj["rels"]
+            semis.append(preds)
+            items.append(mj)
+        else:
+            items.append(gen_mrs(rng, codec, size=rng.choice([1, 1, 2])))
+    case = {"kind": "churn", "codec": codec, "items": items, "props": rng.random() < 0.7, "lnk": rng.random() < 0.7}
+    if codec == "indexed":
+        case["semis"] = semis
+    return case
+
+
+def fresh_semi(preds):
+    """a NEW SemI object every time (never cached: the churn clause needs the objects to die)"""
+    pd = {p: {"synopses": [{"roles": [{"name": r, "value": v, "optional": bool(o)} for r, v, o in syn]}
+                           for syn in syns]} for p, syns in preds.items()}
+    with warnings.catch_warnings():
+        warnings.simplefilter("ignore")
+        return dsemi.SemI(variables=IX_VARS, properties=IX_PROPS,
+                          roles={r: {"value": v} for r, v in IX_ROLES.items()}, predicates=pd)
+
+
 # ------------------------------------------------------------------ the property, re-stated naively
 
 INDENTS = [False, True, None, 0, 2]
@@ -869,6 +989,10 @@ class C01(Check):
                     yield self.rt_case(rng, codec, n_items=1, size=1, family=fam)
                     yield self.rt_case(rng, codec, n_items=2, size=2, family=fam)
                 yield self.rt_case(rng, codec, n_items=1, size=2, family="unnormalised")
+        for lc in longtext_cases(tier):
+            yield lc
+        for codec in ("indexed", "simple", "mrx", "json"):
+            yield gen_churn(rng, codec)
         for lc in long_cases():
             yield lc
             if lc["codec"] == "simple" and lc["offset"] == 0:
@@ -906,6 +1030,8 @@ class C01(Check):
                 yield self.rt_case(rng, "indexed")
             elif r < 0.70:
                 yield self.rt_case(rng, rng.choice(["simple", "json", "mrx"]), n_items=1, family="unnormalised")
+            elif r < 0.72:
+                yield gen_churn(rng, rng.choice(["indexed", "indexed", "simple", "mrx", "json"]))
             elif r < 0.80:
                 yield self.parse_case(rng)
             elif r < 0.86:
@@ -983,6 +1109,10 @@ class C01(Check):
             return out
         if k == "long":
             return {"items": len(case["items"]), "tokens": case.get("tokens")}
+        if k == "longtext":
+            return {"items": case["n"] + 1}
+        if k == "churn":
+            return {"items": len(case["items"])}
         if k == "lex":
             try:
                 return {"ok": real_lex(uncps(case["s"]))}
@@ -1130,6 +1260,10 @@ class C01(Check):
             return fails
         if k == "long":
             return self.oracle_long(case)
+        if k == "longtext":
+            return self.oracle_longtext(case)
+        if k == "churn":
+            return self.oracle_churn(case)
         if k != "rt":
             return fails
         codec, props, lnk = case["codec"], case["props"], case["lnk"]
@@ -1347,13 +1481,123 @@ class C01(Check):
             fail("%s long document dump/load (filename) raises" % codec, errname(e))
         return fails
 
+    def oracle_longtext(self, case):
+        fails = []
+
+        def fail(clause, detail):
+            fails.append({"clause": clause, "detail": detail})
+        codec, props, lnk = case["codec"], case["props"], case["lnk"]
+        c = self.codecs[codec]
+        o = {"properties": props, "lnk": lnk}
+        items = longtext_items(case)
+        ms = [m_from_wire(j) for j in items]
+        n = len(ms)
+        cache = self.__dict__.setdefault("_own", {})
+        own = []
+        for i, m in enumerate(ms):          # each item's own single round trip (cached over the family)
+            key = (codec, props, lnk, case["shift"] if i == 0 else -1, i)
+            if key not in cache:
+                try:
+                    cache[key] = m_to_wire(c.decode(c.encode(m, **o)))
+                except Exception as e:
+                    cache[key] = {"err": errname(e)}
+            own.append(cache[key])
+
+        def check(label, ds, size):
+            if len(ds) != n:
+                fail("%s long text %s: %d items written, %d read back" % (codec, label, n, len(ds)),
+                     "%d characters, shift %d" % (size, case["shift"]))
+                return
+            for i, (d, w) in enumerate(zip(ds, own)):
+                if m_to_wire(d) != w:
+                    fail("%s long text %s: an item differs from its own single round trip" % (codec, label),
+                         "item %d of %d, %d characters, shift %d" % (i, n, size, case["shift"]))
+                    return
+        for ind in (None, 2):
+            try:
+                text = c.dumps(ms, **o, indent=ind)
+            except Exception as e:
+                fail("%s long text dumps raises" % codec, errname(e))
+                continue
+            size = len(text)
+            if ind is None and size <= case["target"]:
+                fail("harness: long text document shorter than its target", "%d <= %d" % (size, case["target"]))
+            try:
+                check("loads indent=%r" % ind, c.loads(text), size)
+            except Exception as e:
+                fail("%s long text loads raises" % codec, "%s indent=%r, %d characters" % (errname(e), ind, size))
+            try:
+                buf = io.StringIO()
+                c.dump(ms, buf, **o, indent=ind)
+                buf.seek(0)
+                check("dump/load (file object) indent=%r" % ind, c.load(buf), size)
+            except Exception as e:
+                fail("%s long text dump/load (file object) raises" % codec, "%s indent=%r" % (errname(e), ind))
+            fn = os.path.join(self.tmp, "longtext.%s" % codec)
+            try:
+                c.dump(ms, fn, **o, indent=ind)
+                check("dump/load (filename) indent=%r" % ind, c.load(fn), size)
+                with open(fn, encoding="utf-8") as fh:       # an open real file: chunked reads by the OS layer
+                    check("load (open file) indent=%r" % ind, c.load(fh), size)
+            except Exception as e:
+                fail("%s long text dump/load (filename) raises" % codec, "%s indent=%r" % (errname(e), ind))
+        return fails
+
+    def oracle_churn(self, case):
+        """objects are built, used and dropped one after the other (their addresses get reused): the k-th
+        encode/decode must depend on the k-th structure and the k-th SEM-I only"""
+        import gc
+        fails = []
+
+        def fail(clause, detail):
+            fails.append({"clause": clause, "detail": detail})
+        codec, props, lnk = case["codec"], case["props"], case["lnk"]
+        mod = {"simple": simplemrs, "json": mrsjson, "mrx": mrx, "indexed": indexedmrs}[codec]
+        o = {"properties": props, "lnk": lnk}
+
+        def one(k):
+            """everything created here dies on return; only plain data is returned"""
+            kw = {"semi": fresh_semi(case["semis"][k])} if codec == "indexed" else {}
+            m = m_from_wire(case["items"][k])
+            try:
+                t = mod.encode(m, **kw, **o)
+                d = mod.decode(t, **kw)
+                diffs = compare(codec, props, lnk, m, d)
+                again = mod.encode(d, **kw, **o)
+                ds = mod.loads(mod.dumps([m], **kw, **o), **kw)
+                diffs2 = ["number of items"] if len(ds) != 1 else compare(codec, props, lnk, m, ds[0])
+            except Exception as e:
+                return ("raises", errname(e))
+            return ("ok", diffs, again == t, diffs2, t[:300])
+        for rnd in (0, 1):              # two passes: the second one re-creates every object once more
+            for k in range(len(case["items"])):
+                r = one(k)
+                gc.collect()
+                if r[0] == "raises":
+                    fail("%s churn: encode/decode raises after earlier objects were dropped" % codec,
+                         "%s at step %d" % (r[1], k))
+                    continue
+                _, diffs, stable, diffs2, t = r
+                if diffs:
+                    fail("%s churn: decoded structure differs from the original (%s)" % (codec, ", ".join(diffs)),
+                         "step %d pass %d: %s" % (k, rnd, t))
+                if diffs2:
+                    fail("%s churn: dumps/loads differs from the original (%s)" % (codec, ", ".join(diffs2)),
+                         "step %d pass %d" % (k, rnd))
+                if not stable:
+                    fail("%s churn: re-encoding the decoded structure does not reproduce the text" % codec,
+                         "step %d pass %d" % (k, rnd))
+        return fails
+
     def classify(self, case, failure):
         return None     # no open finding for C01 (F14, F15, F33, F50, F53 are repaired; witnesses in corpus/C01)
 
     # ---------------------------------------------------------------- evidence
     def nontrivial_key(self, case, res):
         k = case["kind"]
-        if k in ("rt", "long"):
+        if k == "longtext":
+            return json.dumps(case, sort_keys=True)
+        if k in ("rt", "long", "churn"):
             if not any(mj["rels"] for mj in case["items"]):
                 return None
         elif not (case.get("s") or case.get("text")):
@@ -1398,6 +1642,11 @@ class C01(Check):
                 if isinstance(res.get("toks"), list):
                     for t in res["toks"]:
                         inc("tok:" + t[0])
+        elif k == "longtext":
+            inc("longtext:%s:>%dKiB%s" % (case["codec"], case["target"] // 1024,
+                                           ":exact%+d" % case["exact"] if case.get("exact") is not None else ""))
+        elif k == "churn":
+            inc("churn:" + case["codec"])
         elif k == "long":
             inc("long:%s:%s" % (case["codec"], "single" if case.get("single") else
                                 "boundary%s%+d" % (case["boundary"], case["offset"])))
